@@ -57,6 +57,29 @@ def gen_cases(ctx):
         else:
             q = "".join(rng.choice("ACGT") for _ in range(rng.randrange(0, n + 3)))
         cases.append({"kind": "contains", "s": s, "q": q})
+    # histories: the same record object queried, edited in place (a MutableSeq letter, a new Seq), queried again
+    for _ in range(60 if ctx.quick else 600):
+        n = rng.randrange(2, 12)
+        cur = init = "".join(rng.choice("AC") for _ in range(n))
+        steps = []
+        for _ in range(rng.randrange(3, 8)):
+            r = rng.random()
+            if r < 0.55:
+                k = rng.randrange(0, len(cur))
+                ln = rng.randrange(1, len(cur) + 1)
+                q = (cur + cur)[k:k + ln]
+                if rng.random() < 0.3:
+                    q = "".join(rng.choice("AC") for _ in range(ln))
+                steps.append(["in", q])
+            elif r < 0.85:
+                i = rng.randrange(0, len(cur))
+                x = rng.choice("GT")
+                cur = cur[:i] + x + cur[i + 1:]
+                steps.append(["set", i, x])
+            else:
+                cur = "".join(rng.choice("ACGT") for _ in range(rng.randrange(1, 12)))
+                steps.append(["assign", cur])
+        cases.append({"kind": "history", "init": init, "steps": steps})
     for side in ("left", "right", "iadd"):
         for op in OPERANDS:
             cases.append({"kind": "add", "side": side, "operand": op})
@@ -119,6 +142,18 @@ def impl_case(c):
         out = {"in": bool(c["q"] in r)}
         out["rot"] = [bool(c["q"] in (r >> j)) for j in range(len(c["s"]))]
         return out
+    if k == "history":
+        from Bio.Seq import MutableSeq
+        r = CircularRecord(MutableSeq(c["init"]), id="r")
+        answers = []
+        for st in c["steps"]:
+            if st[0] == "in":
+                answers.append([st[1], str(r.seq), bool(st[1] in r)])
+            elif st[0] == "set":
+                r.seq[st[1] % len(r.seq)] = st[2]
+            else:
+                r.seq = MutableSeq(st[1])
+        return {"answers": answers}
     if k == "add":
         r = CircularRecord(Seq("GGCC"), id="r")
         o = _operand(c["operand"])
@@ -195,6 +230,12 @@ def oracle_case(c):
             return {"signature": "C15:membership", "what": "%r in circle %r is %s, expected %s" % (q, s, o["in"], exp)}
         if any(x != exp for x in o["rot"]):
             return {"signature": "C15:membership-rotation", "what": "%r in rotations of %r: %r" % (q, s, o["rot"])}
+    elif k == "history":
+        for q, cur, ans in o["answers"]:
+            exp = len(q) <= len(cur) and any(q in _rot(cur, j) for j in range(len(cur)))
+            if ans != exp:
+                return {"signature": "C15:membership-after-edit",
+                        "what": "after in-place edits the record reads %r; %r in it is %s, expected %s" % (cur, q, ans, exp)}
     elif k == "add":
         if o["outcome"] != "TypeError":
             return {"signature": "C15:add:%s:%s" % (c["side"], c["operand"]),
@@ -225,6 +266,8 @@ def c_case(c, o):
     k = c["kind"]
     if k == "contains":
         return 'CContains "%s" "%s" %s' % (c["q"], c["s"], common.cbool(o["in"]))
+    if k == "history":
+        return ['CContains "%s" "%s" %s' % (q, cur, common.cbool(ans)) for q, cur, ans in o["answers"]]
     if k == "add":
         if o["outcome"] not in OC:
             return None
@@ -246,7 +289,7 @@ def run(ctx):
     ctx.rule = ("membership: every word of length 1..4 (quick) / 1..5 over {A,C} x every query of length 0..6 / 0..7, each "
                 "also asked of every rotation, plus random long cases (true infixes spanning the origin, too-long and "
                 "random queries); + / radd / += over 8 operand kinds; constructor over 7 topology spellings x 2 routes; "
-                "every slice bound pair in ([-n-2,n+2] u None)^2 for n <= 4/5; 8 copy-mutation probes; non-trivial = "
+                "histories of 3-7 queries / in-place letter edits (MutableSeq) / sequence reassignments on one record object; every slice bound pair in ([-n-2,n+2] u None)^2 for n <= 4/5; 8 copy-mutation probes; non-trivial = "
                 "membership cases whose answer is True with a query longer than one letter, and every protocol case")
     cases = gen_cases(ctx)
     ctx.exhaustive = True
@@ -257,6 +300,11 @@ def run(ctx):
         ctx.count("kind:" + c["kind"])
         if c["kind"] != "contains" or (o["in"] and len(c["q"]) > 1):
             ctx.nontriv(c)
+        if c["kind"] == "history":
+            for term in c_case(c, o):
+                terms.append(term)
+                idx.append(i)
+            continue
         t = c_case(c, o)
         if t is None:
             ctx.disagreements.append({"case": c, "impl": o, "observable": "outcome class outside the model's enum"})
